@@ -276,6 +276,7 @@ func exploreHarness(p *program, fn *ssa.Function, nw int, solverKind string, tmo
 			}
 			w := &worker{id: id, in: newInterp(p), solver: s, p: p}
 			w.in.globals = p.snap.globals
+			w.in.sharedGraph = p.snap.shared
 			w.in.funcsSeen = map[*ssa.Function]bool{}
 			defer func() {
 				s.close()
@@ -410,6 +411,7 @@ func replayConcrete(p *program, fn *ssa.Function, v violation, trace bool) (bool
 	ex.take()
 	w := &worker{in: newInterp(p), p: p}
 	w.in.globals = p.snap.globals
+	w.in.sharedGraph = p.snap.shared
 	w.in.trace = trace
 	fault := w.runPath(ex, fn, nil, v.Draws)
 	if fault != "" {
